@@ -79,10 +79,10 @@ class Lock:
 
 # ---------------------------------------------------------------- translator
 
-def regen():
-    """Run ga2coq on /repo/src, rewriting coq/gen/*.v only when content changes."""
+def regen(repo=None):
+    """Run ga2coq on <repo>/src, rewriting coq/gen/*.v only when content changes."""
     import regen as regen_mod
-    return regen_mod.run(REPO, COQ, BUILD, sh, Lock, log)
+    return regen_mod.run(repo or REPO, COQ, BUILD, sh, Lock, log)
 
 
 # ---------------------------------------------------------------- Coq
@@ -583,6 +583,10 @@ def main(argv):
     with open(os.path.join(evdir, "%s.json" % pid), "w") as f:
         json.dump(evidence, f, indent=1, sort_keys=True)
         f.write("\n")
+    if os.path.realpath(REPO) != "/repo":
+        # a run against a scratch copy leaves coq/gen as generated from /repo itself
+        with Lock():
+            regen("/repo")
     for l in lines:
         print(l)
     print("%s %s: theorems %d/%d closed, %d cases, %d failing, %d problems, %.1fs" % (
